@@ -279,3 +279,24 @@ Proof.
   rewrite run_sgs_app. apply run_sgs_buf_free.
   rewrite Forall_forall in Hall. apply Hall. rewrite Heq. apply in_or_app. right. left. reflexivity.
 Qed.
+
+(* ------------------------------------------------------------------ C23: same-tick delivery *)
+
+(* a same-tick handoff h from block P to block C (P earlier in the order, the blocks M in between
+   do not touch h, C does not send to h): C's operators read exactly the buffer P's block left --
+   all of it, once -- and P's block had started it empty *)
+Theorem same_tick_delivery : forall ext A P M C h k w,
+  Forall (fun sg => buf_free sg h) M ->
+  ~ In h (map fst (sg_send C)) ->
+  NoDup (map fst (sg_recv C)) -> In (h, false) (sg_recv C) ->
+  In (h, k) (sg_send P) -> k <> SExit -> NoDup (map fst (sg_send P)) ->
+  reads_at ext (A ++ P :: M) C h w = get h (w_buf (run_sg ext P (run_sgs ext A w))) /\
+  get h (w_buf (prep_send P (run_sgs ext A w))) = [].
+Proof.
+  intros ext A P M C h k w HM HC NDr Hr Hs Hk NDs.
+  split; [|eapply prep_send_clears; eassumption].
+  unfold reads_at.
+  destruct (consumer_gets_buf C (prep_send C (run_sgs ext (A ++ P :: M) w)) h NDr Hr) as [H1 _].
+  cbv zeta in H1. rewrite H1. rewrite prep_send_other by exact HC.
+  apply ref_reads_settled. exact HM.
+Qed.
